@@ -84,3 +84,25 @@ Example demo_meets_hypotheses :
   keys_of (effective (reach demo_history) "MyLoader" KCtor) = (keys_of (effective w0 "SafeLoader" KCtor) ++ [Some "!point"])%list /\
   effective (reach demo_history) "SafeLoader" KCtor = effective w0 "SafeLoader" KCtor.
 Proof. vm_compute. repeat split; reflexivity. Qed.
+
+(* the eighteen loader / dumper classes a user passes as Loader= / Dumper= are pairwise unrelated by inheritance in the regenerated
+   class world: a registration on one of them is, by the isolation theorems, invisible to all the others (frozen list: the public
+   entry classes of yaml/__init__.py, loader.py, dumper.py, cyaml.py) *)
+Definition entry_classes : list cls :=
+  ["BaseLoader"; "SafeLoader"; "FullLoader"; "UnsafeLoader"; "Loader"; "CBaseLoader"; "CSafeLoader"; "CFullLoader"; "CUnsafeLoader"; "CLoader";
+   "BaseDumper"; "SafeDumper"; "Dumper"; "CBaseDumper"; "CSafeDumper"; "CDumper"].
+Definition unrelated (w : world) (l : list cls) : bool :=
+  forallb (fun c => forallb (fun d => String.eqb c d || negb (existsb (String.eqb c) (mro_of w d))) l) l.
+Lemma l_entry_classes_unrelated : unrelated w0 entry_classes = true /\ forallb (fun c => existsb (String.eqb c) (mro_of w0 c)) entry_classes = true.
+Proof. vm_compute. split; reflexivity. Qed.
+Lemma reach_nil : reach [] = w0.
+Proof. unfold reach, run_from. cbn [fold_left]. reflexivity. Qed.
+Lemma l_entry_isolated : forall k c keys v d k', In c entry_classes -> In d entry_classes -> c <> d ->
+  effective (step cow_of w0 (Add k c keys v)) d k' = effective w0 d k'.
+Proof.
+  intros k c keys v d k' Hc Hd Hne. rewrite <- reach_nil. apply l_add_isolated; [reflexivity|]. left. rewrite reach_nil.
+  destruct l_entry_classes_unrelated as [H _]. unfold unrelated in H. rewrite forallb_forall in H.
+  specialize (H c Hc). rewrite forallb_forall in H. specialize (H d Hd).
+  apply orb_prop in H as [H|H]; [apply String.eqb_eq in H; contradiction|].
+  intros Hin. apply negb_true_iff in H. rewrite <- not_true_iff_false in H. apply H. apply existsb_exists. exists c. split; [exact Hin|apply String.eqb_refl].
+Qed.
